@@ -1,6 +1,7 @@
 import DimodProofs.FeasCqm
 import DimodProofs.FeasOptions
 import DimodProofs.FeasMore
+import DimodProofs.FeasGather
 
 /-! # C08 — CQM feasibility and violation reports agree with the constraint definition
 
@@ -570,6 +571,33 @@ theorem single_sample_guard (nrows : Nat) (skip clip : Bool) (labels : Option (L
     refine ⟨by simp [iterConstraintDataG], ?_, by simp [checkFeasibleG, checkFeasible_eq]⟩
     simp only [iterViolationsG, ne_eq, not_true_eq_false, if_false]
     exact (options_eq_def skip clip labels cs r).1
+
+/-- **Samples wider than the model.**  `_cyExpression._energies` gathers, for every row, the expression's variables BY LABEL
+    from the labelled sample array (`reindex[i] = labels.index(…)`, `samples[:, reindex]`) and hands that sub-sample, in the
+    expression's private order, to `abc::energy`.  So the energy of a row is the value of the expression at the assignment
+    "label ↦ the row's entry in that label's column" (`sampleVal`; the column of a label is found wherever it stands), and two
+    labelled samples that give the same value to every variable of the expression — with superfluous columns before, between
+    or after, in any column order — give the same energy; every report of this file is a function of those energies. -/
+theorem samples_wider_than_model (modelLabels s1 s2 : List Label) (r1 r2 : List Rat) (e : Expr)
+    (hlen : e.qb.lin.length = e.vars.length) :
+    exprEnergyOfSample modelLabels s1 r1 e = exprEnergy e (fun g => sampleVal s1 r1 (modelLabels.getD g (.int 0)))
+    ∧ ((∀ g ∈ e.vars, sampleVal s1 r1 (modelLabels.getD g (.int 0)) = sampleVal s2 r2 (modelLabels.getD g (.int 0))) →
+        exprEnergyOfSample modelLabels s1 r1 e = exprEnergyOfSample modelLabels s2 r2 e)
+    ∧ (s1.Nodup → ∀ j l, s1[j]? = some l → sampleVal s1 r1 l = r1.getD j 0) := by
+  refine ⟨exprEnergyOfSample_eq modelLabels s1 r1 e hlen, fun h => ?_, fun hnd j l hj => sampleVal_get hnd r1 hj⟩
+  unfold exprEnergyOfSample
+  have : gatherRow modelLabels s1 r1 e = gatherRow modelLabels s2 r2 e := by
+    unfold gatherRow
+    exact List.map_congr_left h
+  rw [this]
+
+/-- objective `x + 2·i` over model labels [x, i]: the sample `[9, x=1, 7, i=3]` with two superfluous columns and the sample
+    `[i=3, x=1]` in another order both give 7 -/
+example :
+    let e : Expr := { vars := [0, 1], idx := [(0, 0), (1, 1)], qb := { lin := [1, 2], adj := [[], []], off := 0 } }
+    exprEnergyOfSample [.str "x", .str "i"] [.str "a", .str "x", .str "b", .str "i"] [9, 1, 7, 3] e = 7
+    ∧ exprEnergyOfSample [.str "x", .str "i"] [.str "i", .str "x"] [3, 1] e = 7
+    ∧ gatherMissing [.str "x", .str "i"] [.str "i"] e = true := by decide +kernel
 
 /-- row 1 of `demo` (`soft` x+y<=1 met, `hard` x−y>=0 violated by 1): nothing soft is violated, the one hard constraint is
     listed by `skip_satisfied`, `check_feasible` is False at tolerance 0 and True at `atol = 1`; the float test with an exact
